@@ -36,6 +36,8 @@ def gen_chain(rng, k, B):
             for _ in range(rng.randrange(1, 4)):
                 ops.append(rng.choice([[0, rng.randrange(1, 60)], [1, rng.randrange(1, 60), rng.randrange(1, 30)]]))
                 ops.append([2, rng.randrange(0, 20)])
+                if rng.random() < 0.4:
+                    ops.append([3])          # compaction with a partly consumed stream buffer
         elif pol == "end":
             for _ in range(len(flat(srecs)) // 16 + 4):
                 ops += [[0, 10 ** 6], [2, 10 ** 6], [4, 10 ** 6], [3]]
@@ -110,6 +112,24 @@ def gen_leftover_cases(rng, tier):
         yield case("req_run", [B], [3], w, schedule(rng, len(w))), ["leftover-after-done"]
 
 
+def gen_compress_partial_cases(rng, tier):
+    """the caller takes PART of the buffered stream data, compacts the buffer (public compress()) while more look-ahead than it has
+    consumed is still unparsed behind the stream data (a Filter's Data records behind the end of Stdin), and stops reading: the
+    hand-off must still return exactly the unread suffix"""
+    for _ in range(12 if tier == "quick" else 400):
+        rid = rng.choice([1, 300])
+        n1 = rng.randrange(20, 120)
+        n2 = rng.randrange(n1 + 1, 400)
+        recs = minimal_preamble(rid, FILTER) + [record(STDIN, rid, [rng.randrange(256) for _ in range(n1)], rng.choice([0, 5])), record(STDIN, rid, [], 0)]
+        recs += [record(DATA, rid, [rng.randrange(256) for _ in range(n2)], rng.choice([0, 3])), record(DATA, rid, [], 0)]
+        nxt = flat(minimal_preamble(2, 1, pairs=[(b"K", b"v")]))
+        w = flat(recs) + nxt
+        k = rng.choice([1, 10, n1 // 2, n1 - 1])
+        tail = rng.choice([[[8]], [[6, len(nxt)], [8]], [[6, len(nxt), 1], [8]]])
+        ops = [[0, 10 ** 6], [2, k], [3]] + rng.choice([[], [[0, 0]], [[2, 1], [3]]]) + ([[5, 0], [0, 0]] if tail[0][0] == 6 else []) + tail
+        yield "str_run " + " ".join(fmt_arg(x) for x in [[rng.choice([1024, 8192]), len(flat(recs))], [3], w] + ops), ["chain", "k2", "compress-partial"]
+
+
 _gen_cases_chain = gen_cases
 
 
@@ -118,6 +138,7 @@ def gen_cases(rng, tier):
     yield from gen_boundary_cases(rng, tier)
     yield from gen_maxrecord_cases(rng, tier)
     yield from gen_leftover_cases(rng, tier)
+    yield from gen_compress_partial_cases(rng, tier)
 
 
 def a_gate(ops, o, wire):
@@ -175,7 +196,7 @@ def nontrivial(line, tags):
 
 
 def min_classes(tier):
-    return {"k2": 80, "k3": 80, "k4": 80, "into-input": 100, "boundary-flag": 6, "max-record": 4, "leftover-after-done": 120}
+    return {"k2": 80, "k3": 80, "k4": 80, "into-input": 100, "boundary-flag": 6, "max-record": 4, "leftover-after-done": 120, "compress-partial": 10}
 
 
 def oracle(line, impl_line):
